@@ -5,30 +5,41 @@
 (* for every payload size and every interleaving of writer and reader;     *)
 (* command substitution then removes exactly the trailing newlines.        *)
 (*                                                                         *)
-(* The module has three parts.                                             *)
+(* The specification has three parts.                                      *)
 (*                                                                         *)
-(*  1. DATA (module PipeData): byte strings, Strip (POSIX XCU 2.6.3: "removing sequences of  *)
-(*     one or more <newline> characters at the end of the substitution"),  *)
-(*     and a compact form [off, n, tail] for "n bytes of the probe's       *)
-(*     counter stream followed by a literal tail" with the same operators, *)
-(*     so that payloads of thousands of bytes are judged in time linear in *)
-(*     the tail.                                                           *)
-(*  2. KERNEL RULES (module PipeData) of one pipe (POSIX XSH write(), read(), pipe(); XBD     *)
-(*     <limits.h> PIPE_BUF), as pure functions of the occupancy and of the  *)
-(*     number of open ends: how many bytes one write/read request           *)
-(*     transfers, when it would block, when select reports readiness.      *)
-(*     These are shared by the process model below and by Trace_Pipe,      *)
-(*     which judges the real code with the real constants.                 *)
-(*  3. PROCESSES: a pipeline of NProc processes connected by NProc-1 pipes, *)
-(*     each process running the loops of yash-env's Concurrent             *)
-(*     (write_all / read_all / read over NON-BLOCKING descriptors, EAGAIN  *)
-(*     -> register a waker -> select -> retry) at system-call granularity  *)
-(*     (finer than the simulator's scheduling, i.e. a superset of its      *)
-(*     interleavings, and the granularity of a real kernel).               *)
-(*     TLC checks: capacity, order, conservation (exactly once),           *)
-(*     completeness, no lost wake-up, no deadlock, termination under       *)
-(*     fairness.  FAULT selects a seeded model fault for the NEGATIVE      *)
-(*     configurations, in which TLC must find the failure.                 *)
+(*  1. DATA (module PipeData): byte strings, Strip (POSIX XCU 2.6.3:       *)
+(*     "removing sequences of one or more <newline> characters at the end  *)
+(*     of the substitution"), the meaning of the scenario scripts, and a   *)
+(*     compact form [off, n, tail] for "n bytes of the probe's counter     *)
+(*     stream followed by a literal tail" with the same operators, so that *)
+(*     payloads of thousands of bytes are judged in time linear in the     *)
+(*     tail.                                                               *)
+(*  2. KERNEL RULES of one pipe (module PipeData; POSIX XSH write(),       *)
+(*     read(), pipe(); XBD <limits.h> PIPE_BUF) as pure functions of the   *)
+(*     occupancy and of the number of open ends: how many bytes one        *)
+(*     write/read request transfers, when it would block, when select      *)
+(*     reports readiness.  They are shared by the process model below and  *)
+(*     by Trace_Pipe, which judges the real code with the real constants.  *)
+(*  3. PROCESSES (this module): a pipeline of NProc processes connected by *)
+(*     NProc-1 pipes, each process running the loops of yash-env's         *)
+(*     Concurrent (write_all / read_all / read over NON-BLOCKING           *)
+(*     descriptors: EAGAIN -> register a waker -> select -> retry) at      *)
+(*     system-call granularity (finer than the simulator's scheduling,     *)
+(*     i.e. a superset of its interleavings, and the granularity of a real *)
+(*     kernel).  TLC checks: capacity, order, conservation (exactly once), *)
+(*     completeness, no lost wake-up, no deadlock (deadlock checking on),  *)
+(*     termination under fairness.  FAULT selects a seeded model fault for *)
+(*     the NEGATIVE configurations, in which TLC must find the failure:    *)
+(*       "dropwake"  a read does not wake the writers waiting for room     *)
+(*                   -> deadlock;                                          *)
+(*       "noadvance" write_all does not advance after a partial write      *)
+(*                   -> Conservation / Order violated;                     *)
+(*       "shortread" read_all stops at a short read -> Completeness        *)
+(*                   violated;                                             *)
+(*       "anyroom"   select reports writable with any room (no safety      *)
+(*                   violation at this granularity: the writer spins; the  *)
+(*                   static lemma RulesLemma of MC_Pipe states the         *)
+(*                   soundness of readiness instead).                      *)
 (***************************************************************************)
 EXTENDS PipeData
 
